@@ -1012,3 +1012,44 @@ def long_loop_c13(sc, base, seed):
 
 def pure_manual_c19(sc, base, seed):
     return pure_manual(sc, base, seed, pid="C19")
+
+
+def subclass_events(sc, base, seed, pid="C10"):
+    """the same events built from trivial user subclasses of the library's event classes (`class Flood(EventKapitalRecover): pass`):
+    same run"""
+    out = []
+    if not sc["events"] or "error" in base or seed % 3 != 1:
+        return out
+    from boario import event as bev
+    try:
+        evs = []
+        for e in sc["events"]:
+            imp = scen._mi(dict(e["impact"]), ["region", "sector"], int_dtype=bool(e.get("int_dtype")))
+            house = scen._mi(dict(e["house"]), ["region", "category"], int_dtype=bool(e.get("int_dtype"))) if e.get("house") else None
+            if e["type"] == "arbitrary":
+                cls = type("Heatwave", (bev.EventArbitraryProd,), {})
+                evs.append(cls(impact=imp, recovery_tau=e["recovery_tau"], recovery_function=scen.curve_arg(e["curve"]), name=e.get("name"),
+                               occurrence=e["occ"], duration=e["dur"]))
+            elif e["type"] == "rebuild":
+                cls = type("Earthquake", (bev.EventKapitalRebuild,), {})
+                evs.append(cls(impact=imp, households_impact=house, name=e.get("name"), occurrence=e["occ"], duration=e["dur"],
+                               event_monetary_factor=e["emf"], rebuild_tau=e["rebuild_tau"], rebuilding_sectors=dict(e["reb_sectors"]),
+                               rebuilding_factor=scen._factor(e)))
+            else:
+                cls = type("Flood", (bev.EventKapitalRecover,), {})
+                evs.append(cls(impact=imp, households_impact=house, name=e.get("name"), occurrence=e["occ"], duration=e["dur"],
+                               event_monetary_factor=e["emf"], recovery_tau=e["recovery_tau"], recovery_function=scen.curve_arg(e["curve"])))
+        tw = copy.deepcopy(sc)
+        tw["sim"]["save_records"] = []
+        tw["sim"]["show_progress"] = False
+        sim = Simulation(scen.build_model(sc["table"], sc["model"]), n_temporal_units_to_sim=sc["T"],
+                         register_stocks=sc["sim"].get("register_stocks", False))
+        for ev in evs:
+            sim.add_event(ev)
+        b = run_records(tw, sim=sim)
+    except Exception as e:
+        b = {"error": f"{type(e).__name__}: {e}"}
+    # (the class constructors take the impact Series as it is; the factories drop zero entries and sort: compare as for another order)
+    out += cmp_records(pid, base, b, "the same events built from user subclasses of the event classes", rtol=1e-9, atol_scale=1e-9,
+                       extra_abs=20 * 10.0 ** -(int(np.log10(sc["model"]["monetary_factor"])) + 1))
+    return out
